@@ -12,7 +12,7 @@ from .. import ref as R
 RULE = ("postconditions on translation, rotation, scaling, reflection, affine_transform, identity, Transformation.from_points and "
         "from_points_and_conics, evaluated on every call (workload, library-internal calls from Cone/RegularPolygon/__add__, repository tests): "
         "translation matrix = identity with the offset in the last column and p -> p+v on sample points; rotation(a) = [[c,-s],[s,c]]; "
-        "rotation(a, axis): orthogonal, det 1, fixes the axis, trace 1+2cos a, rotation(a)rotation(b) = rotation(a+b); scaling diagonal; "
+        "rotation(a, axis) (axis a finite point or a direction at infinity): finite, orthogonal, det 1, fixes the axis, trace 1+2cos a, rotation(a)rotation(b) = rotation(a+b); scaling diagonal; "
         "reflection: involution, fixes points of the mirror, orthogonal linear part, agrees with mirror(); from_points maps each of the n+2 "
         "source points to its target; from_points_and_conics maps the three points and the conic. Workload: offsets as numbers and as Point, "
         "angles in (-7,7), axes in all octants, mirrors vertical / through the origin / generic / far away, random lattice frames in general "
@@ -67,16 +67,19 @@ def post_rotation(ctx, call):
         ctx.judge("rotation2d", bool(ok), [a], what="rotation(a) is not the counter-clockwise rotation matrix [[c,-s],[s,c]]", op="rotation", observed=m, nontrivial=a != 0)
         return
     ax = np.asarray(axis.array, dtype=float)
-    if ax.shape != (4,) or abs(ax[-1]) < 1e-12:
+    if ax.shape != (4,):
         return
-    u = ax[:-1] / ax[-1]
+    # an axis given as a direction (a point at infinity) is the axis through the origin with that direction
+    u = ax[:-1] / ax[-1] if abs(ax[-1]) >= 1e-12 else ax[:-1].copy()
     nu = np.linalg.norm(u)
     if nu < 1e-12:
         return
     u = u / nu
     Rm = m[:3, :3]
     why = None
-    if m.shape != (4, 4) or not np.allclose(m[3], [0, 0, 0, 1], atol=1e-12) or not np.allclose(m[:3, 3], 0, atol=1e-12):
+    if m.shape != (4, 4) or not np.all(np.isfinite(m)):
+        why = "matrix is not a finite 4x4 matrix"
+    elif not np.allclose(m[3], [0, 0, 0, 1], atol=1e-12) or not np.allclose(m[:3, 3], 0, atol=1e-12):
         why = "not a linear map embedded affinely"
     elif not np.allclose(Rm.T @ Rm, np.eye(3), atol=1e-10):
         why = "linear part is not orthogonal"
@@ -315,6 +318,8 @@ def g_euclid(ctx, rng, i):
             ax = np.array([[1, 0, 0], [0, 1, 0], [0, 0, 1], [0, 0, -1], [-1, 0, 0]][(i // 5) % 5])
         w = gen.pick(rng, [1, 2, -1])
         axis = g.Point(np.append(ax * w, w))
+        if i % 4 == 3:
+            axis = g.Point(np.append(ax * w, 0))  # the axis as a direction
         ra, rb, rab = g.rotation(a, axis=axis), g.rotation(b2, axis=axis), g.rotation(a + b2, axis=axis)
         g.rotation(0.0, axis=axis)
     prod = np.asarray((ra * rb).array, dtype=float)
